@@ -152,6 +152,33 @@ def mut_lines(muts, thorough):
     return out
 
 
+def text_layer_lines(thorough):
+    """the text layer on its own: after the prefix, EVERY string over {a data character, the padding character} up to 10 (12) characters and
+    every string over {'A', '=', '/', '-'} up to 5 (6) -- padding-only, padding-dominated and misplaced-padding payloads of every residue --
+    plus long runs; also the same strings without / with a damaged prefix"""
+    import itertools
+    out = []
+    seen = set()
+    def add(kind, b):
+        if b not in seen:
+            seen.add(b)
+            out.append("dec kind=%s x=%s" % (kind, b.hex()))
+    for n in range(0, (12 if thorough else 10) + 1):
+        for t in itertools.product(b"A=", repeat=n):
+            add("text-layer/pad%d" % min(bytes(t).count(b"="), 9), b"eph://" + bytes(t))
+    for n in range(0, (6 if thorough else 5) + 1):
+        for t in itertools.product(b"A=/-", repeat=n):
+            add("text-layer/alpha", b"eph://" + bytes(t))
+    for n in (16, 63, 64, 65, 255, 256, 1000, 4096, 65536, 100000):
+        for pad in (1, 2, 3, 4, n // 2, (3 * n) // 4, (3 * n) // 4 + 1, n - 1, n):
+            add("text-layer/run", b"eph://" + b"A" * (n - pad) + b"=" * pad)
+            add("text-layer/run", b"eph://" + b"=" * pad + b"A" * (n - pad))
+    for pre in (b"", b"eph:/", b"eph:", b"EPH://", b"eph//", b"eph://eph://", b" eph://", b"eph:// "):
+        for body in (b"", b"=", b"====", b"AAAA", b"A===", b"AA==", b"AAA=", b"=AAA"):
+            add("text-layer/prefix", pre + body)
+    return out
+
+
 def random_dec_lines(rng, n, real_uris):
     """random strings, random well-formed base64 payloads with a plausible header, and damaged copies of URIs the real encoder produced"""
     out = []
@@ -317,7 +344,7 @@ def run(chk):
     chk.level = "exploration"
     chk.cov["rule"] = ("cases = TLC-enumerated boundary shapes (each counted list at 0/1/255/256/300, each string at 0/255/256[/65535/65536], 8 expiries, "
                        "one or two fields off base) + TLC-generated decoder inputs (every truncation point of v1..v4 layouts, every count/length byte at 255 and 0, "
-                       "expiry fields, prefix/base64 damage) + seeded random manifests / strings; a case class = outcome x size bucket of every list and string "
+                       "expiry fields, prefix/base64 damage) + the text layer exhaustively (every string over {data char, '='} up to 10 characters after the prefix, over {A,=,/,-} up to 5, long padding runs, damaged prefixes) + seeded random manifests / strings; a case class = outcome x size bucket of every list and string "
                        "x expiry sign/fraction (rt) or mutation kind x version x outcome (dec)")
     rng = chk.rng
     c18 = chk.pid == "C18"
@@ -340,7 +367,7 @@ def run(chk):
         chk.sample({"source": "roundtrip", "events": [{"tag": e.get("tag"), "enc": e["enc"], "dec": e.get("dec")} for e in rt["events"][:6]]})
     else:
         real = [bytes(e["uri"]["b"]) for e in rt["events"] if e["op"] == "rt" and e.get("exact") and e["enc"] == "ok"]
-        dec_lines = mut_lines(muts, thorough) + random_dec_lines(rng, 15000 if thorough else 1000, real)
+        dec_lines = mut_lines(muts, thorough) + text_layer_lines(thorough) + random_dec_lines(rng, 15000 if thorough else 1000, real)
         # the two input sets are independent: validate them side by side, each first on the plain build and then
         # (same inputs) on the ASan+UBSan build
         def chain(first, lines, label):
